@@ -25,7 +25,7 @@ def backends():
 
 
 def shards(tier, seed):
-    return A.make_shards(tier, "opt", extra={"full": tier == "thorough", "dup_every": 7})
+    return A.make_shards(tier, "cover", extra={"full": tier == "thorough", "dup_every": 7})
 
 
 def judge(spec, obs, copt, popt):
